@@ -200,10 +200,14 @@ def register(reg, repo):
               "implies(s._tasks is old(s._tasks), len(s._tasks) == old(len(s._tasks)) and s.active_task is old(s.active_task) "
               "and s._batches is old(s._batches) and all(s._tasks[j] is old(s._tasks[j]) for j in range(0, old(len(s._tasks)))))")
     reg.add(C(S + "wait_for", modifies="*", types={"task": "AsyncTask"}, requires=["task.running == False"],
-              post=["computed(task)"], xpost=["True"],
+              post=["computed(task)"],
+              xpost=["raised_by('scheduler.TaskScheduler._execute') or raised_by('scheduler.TaskScheduler._continue_with_batch')",
+                     "implies(raised_by('scheduler.TaskScheduler._execute'), isinstance(exc, RuntimeError))"],
               invariants={1: ["inv()", "two_state('old')"]},
               labels={"site_requires": {"self._continue_with_batch": ["not computed(task)"]},
-                      ("post", 0): "returns-only-when-task-computed"}))
+                      ("post", 0): "returns-only-when-task-computed",
+                      ("xpost", 0): "raises-only-what-the-walk-or-the-flush-raised",
+                      ("xpost", 1): "only-the-runaway-guard-escapes-the-walk"}))
 
     TOP = "len(self._tasks) > 0 and self._tasks[len(self._tasks) - 1] is task"
     SAME = "self._tasks is old(self._tasks)"
